@@ -84,7 +84,7 @@ def cmd_confirm(sid):
     run = find_run_sh(sid)
     ran = []
     ok = True
-    env = dict(os.environ, CARGO_TARGET_DIR=os.path.join(VERIF, ".cache", "seed-target"), CARGO_INCREMENTAL="0")
+    env = dict(os.environ, CARGO_TARGET_DIR=os.environ.get("VP_SEED_TARGET", os.path.join(VERIF, ".cache", "seed-target")), CARGO_INCREMENTAL="0")
     # with the change
     d = scratch(patch)
     try:
